@@ -9,8 +9,9 @@ for cf in sorted(glob.glob(f"{root}/_runs/*.confirm.json")):
     rnd2 = name.startswith("R2_")
     rnd3 = name.startswith("R3_")
     rnd4 = name.startswith("R4_")
-    prop, var = name[3:].split("-") if (rnd2 or rnd3 or rnd4) else name.split("-")
-    base = "/tmp/seed4_out" if rnd4 else "/tmp/seed3_out" if rnd3 else "/tmp/seed2_out" if rnd2 else "/tmp/seed_out"
+    rnd5 = name.startswith("R5_")
+    prop, var = name[3:].split("-") if (rnd2 or rnd3 or rnd4 or rnd5) else name.split("-")
+    base = "/tmp/seed5_out" if rnd5 else "/tmp/seed4_out" if rnd4 else "/tmp/seed3_out" if rnd3 else "/tmp/seed2_out" if rnd2 else "/tmp/seed_out"
     src = f"{base}/{prop}/{var}"
     ok = c.get("applies") and c.get("demo_without") == 0 and c.get("demo_with") == 1 and c.get("tests_passed", 0) >= 99 and c.get("tests_exit") == 0
     runf = f"{root}/_runs/{name}.json"
@@ -26,7 +27,7 @@ for cf in sorted(glob.glob(f"{root}/_runs/*.confirm.json")):
         m = re.search(r"(?is)(what is needed to manifest|needs?[^\n]*manifest[^\n]*|## needs)[^\n]*\n(.{0,900})", notes)
         if m:
             needs = " ".join(m.group(2).split())[:700]
-        json.dump({"breaks_property": prop, "variant": var, "written_by": "independent sub-agent given only the property text and a scratch worktree" + (" (second round: told which two ideas had already been used, nothing else)" if rnd2 else " (third round: told which ideas had been used and asked for conjunctions of unusual circumstances / numerical regimes / rarely used parameters)" if rnd3 else " (fourth round: additionally told that units, dtypes, long records, repeated calls, second objects, vanishing windows, extreme coherences and exact ties had been tried)" if rnd4 else ""),
+        json.dump({"breaks_property": prop, "variant": var, "written_by": "independent sub-agent given only the property text and a scratch worktree" + (" (second round: told which two ideas had already been used, nothing else)" if rnd2 else " (third round: told which ideas had been used and asked for conjunctions of unusual circumstances / numerical regimes / rarely used parameters)" if rnd3 else " (fourth round: additionally told that units, dtypes, long records, repeated calls, second objects, vanishing windows, extreme coherences and exact ties had been tried)" if rnd4 else " (fifth round: everything tried in rounds 1-4 excluded)" if rnd5 else ""),
                    "needs_to_manifest": needs or notes[:700],
                    "confirmed": {"on_head": c["head"], "applies": True, "pinned_tests_passed": c["tests_passed"], "tests_summary": c["tests_summary"],
                                  "demo_exit_without_change": c["demo_without"], "demo_exit_with_change": c["demo_with"],
